@@ -72,7 +72,8 @@ Record settings := {
   s_parser : bool;               (* query_parser_enabled *)
   s_splitting : bool;            (* query_parser_read_write_splitting *)
   s_primary_reads : bool;        (* primary_reads_enabled *)
-  s_default_role : option role   (* default_role: "any" = None *)
+  s_default_role : option role;  (* default_role: "any" = None *)
+  s_plugins : bool               (* the pool has a [plugins] section (pool_settings.plugins.is_some()) *)
 }.
 
 (** QueryRouter fields (query_router.rs:87-105) that the role depends on.  The router is
@@ -97,6 +98,16 @@ Definition parser_on (cfg : settings) (st : rstate) : bool :=
 (** query_router.rs:1317-1322 *)
 Definition preads_on (cfg : settings) (st : rstate) : bool :=
   match o_preads st with Some b => b | None => s_primary_reads cfg end.
+
+(** query_router.rs parses_messages (since 2a7a370): client.rs parses a message when the
+    session's parser is on, and also when the pool (parser enabled) runs plugins — SET SERVER
+    ROLE switches the session's role inference off, not the pool's plugins. *)
+Definition parses_messages (cfg : settings) (st : rstate) : bool :=
+  parser_on cfg st || (s_parser cfg && s_plugins cfg).
+
+(** [self.query_parser_enabled == Some(false)]: the client chose the role itself *)
+Definition override_off (st : rstate) : bool :=
+  match o_parser st with Some false => true | _ => false end.
 
 (** ** Custom commands (try_execute_command, query_router.rs:320-363).  The regexes that
     recognise them are C13's subject; here a command is already recognised. *)
@@ -156,7 +167,9 @@ Fixpoint infer_loop (cfg : settings) (act : activity) (i : nat) (pin visited : b
 (** Result: new state and [true] iff Err("empty query").  NB: active_role is not reset at
     the start; whether the outcome depends on the old role is theorem c05_recomputed. *)
 Definition infer_act (cfg : settings) (act : activity) (st : rstate) (ss : list stmt) : rstate * bool :=
-  if negb (s_splitting cfg) then (st, false)                              (* 490-492 *)
+  if negb (s_splitting cfg) then (st, false)                              (* "Nothing to do" *)
+  else if override_off st then (st, false)   (* the guard BEFORE the empty-query block: a message parsed
+                                                only for the plugins never touches an explicit role *)
   else match ss with
        | [] => (set_role st (Some Primary), true)                         (* 496-500 *)
        | _ => let st0 := if a_init act then set_role st (Some Primary) else st in
@@ -226,6 +239,7 @@ Fixpoint infer_sh_loop (cfg : settings) (act : activity) (auto : bool) (sho : na
 Definition infer_sh (cfg : settings) (act : activity) (auto : bool) (sho : nat -> shres)
            (st : rstate) (shard : option nat) (ss : list stmt) : rstate * option nat * bool :=
   if negb (s_splitting cfg) then (st, shard, false)
+  else if override_off st then (st, shard, false)
   else match ss with
        | [] => (set_role st (Some Primary), shard, true)
        | _ => let st0 := if a_init act then set_role st (Some Primary) else st in
@@ -242,10 +256,10 @@ Definition infer_sh (cfg : settings) (act : activity) (auto : bool) (sho : nat -
     [parsed] is what [QueryRouter::parse] returned for the message's SQL. *)
 Inductive parsed := PRej | PAcc (act : activity) (ss : list stmt).
 
-(** 951-981 ('Q') and 993-1012 ('P'): parse and infer only if query_parser_enabled();
+(** the 'Q' and 'P' arms of the outer loop: parse, plugins and infer only if parses_messages();
     a parse error is logged and the role stays; infer's own Err is discarded ([let _ =]). *)
 Definition route_parsed (cfg : settings) (st : rstate) (p : parsed) : rstate :=
-  if parser_on cfg st
+  if parses_messages cfg st
   then match p with PRej => st | PAcc act ss => fst (infer_act cfg act st ss) end
   else st.
 
